@@ -338,7 +338,7 @@ func runC11(c *core.Ctx) {
 	}
 	// C02's multi-site trees
 	r := c.Rng("random-trees")
-	for i, n := 0, c.Pick(60, 3000); i < n; i++ {
+	for i, n := 0, c.Pick(60, 40000); i < n; i++ {
 		b := newTreeBuilder("w")
 		root := refRootSkeleton()
 		var plans []refPlan
